@@ -342,6 +342,59 @@ let iconv_ops_of (a : string array) (i : int) : iconv_ops =
       | Some (_, _, _, _, frc, fol, _) -> { fr_rc = frc; fr_outleft = fol }
       | None -> { fr_rc = RcOther; fr_outleft = Z0 });
     io_buf = (fun cap -> match find cap with Some (_, _, _, _, _, _, b) -> b | None -> []) }
+(* ---------- messages (C16) ---------- *)
+let mdiag_s = function
+  | MRangeNoPlural -> "range-no-plural"
+  | MInvalidRange f -> "invalid-range " ^ out_str f
+  | MUnknownFlag f -> "unknown " ^ out_str f
+  | MDupFlag f -> "dupflag " ^ out_str f
+  | MConflictFlags (a, b) -> "conflict " ^ out_str a ^ " " ^ out_str b
+  | MRedundantFlag (p, q) -> "redundant " ^ out_str p ^ " " ^ out_str q
+  | MDispatch f -> "dispatch " ^ out_str f
+  | MMalformedXml m -> "xml " ^ out_str m
+  | MDuplicateDef -> "dup"
+  | MTranslationInTemplate -> "tmpl"
+  | MStrayPrevious -> "stray"
+  | MLeadingNL -> "lnl"
+  | MTrailingNL -> "tnl"
+  | MUnusual cs -> "unusual " ^ String.concat "," (List.map ns cs)
+  | MConflictMarker m -> "cm " ^ out_str m
+  | MPartial -> "partial"
+let cdiag_s = function
+  | AtMsg (i, d) -> "@" ^ string_of_int (int_of_nat i) ^ " " ^ mdiag_s d
+  | EmptyFile -> "empty-file"
+let opt_str (s : string) : n list option = if s = "-" then None else Some (arg_str s)
+let msg_config ~template ~binary ~hidden ~enc ~maxd ~words ~xml = {
+  c_template = template; c_binary = binary; c_hidden = hidden; c_encoding = enc; c_maxd = maxd;
+  c_formats = string_formats; c_ctlnames = control_character_names;
+  c_isword = (fun c -> List.mem c words);
+  c_xml = (fun s -> match List.assoc_opt s xml with Some r -> r | None -> Some (arg_str "s63")) }
+(* reads:  T B H E maxd nword w.. nxml (str res)* *)
+let read_config (a : string array) (pos : int ref) =
+  let next () = let v = a.(!pos) in incr pos; v in
+  let template = arg_bool (next ()) in let binary = arg_bool (next ()) in
+  let hidden = arg_bool (next ()) in let enc = arg_bool (next ()) in
+  let maxd = arg_n (next ()) in
+  let nw = arg_int (next ()) in
+  let words = List.init nw (fun _ -> arg_n (next ())) in
+  let nx = arg_int (next ()) in
+  let xml = List.init nx (fun _ -> let s = arg_str (next ()) in let r = opt_str (next ()) in (s, r)) in
+  msg_config ~template ~binary ~hidden ~enc ~maxd ~words ~xml
+let read_entry (a : string array) (pos : int ref) : msg_entry =
+  let next () = let v = a.(!pos) in incr pos; v in
+  let ctxt = opt_str (next ()) in
+  let msgid = arg_str (next ()) in
+  let plural = opt_str (next ()) in
+  let msgstr = arg_str (next ()) in
+  let np = arg_int (next ()) in
+  let pl = List.init np (fun _ -> arg_str (next ())) in
+  let nf = arg_int (next ()) in
+  let fl = List.init nf (fun _ -> arg_str (next ())) in
+  let obs = arg_bool (next ()) in
+  let prev = arg_bool (next ()) in
+  let comment = arg_str (next ()) in
+  { me_ctxt = ctxt; me_msgid = msgid; me_plural = plural; me_msgstr = msgstr; me_msgstr_plural = pl;
+    me_flags = fl; me_obsolete = obs; me_previous = prev; me_comment = comment }
 
 (* ---------- dispatch ---------- *)
 let handle (op : string) (a : string array) : string =
@@ -560,6 +613,34 @@ let handle (op : string) (a : string array) : string =
     iconv_res_s (iconv_decode (iconv_ops_of a 3) (arg_bool a.(1)) (arg_str a.(2)) (nat_of_int (arg_int a.(0))))
   | "iconvenc" ->
     iconv_res_s (iconv_encode (iconv_ops_of a 3) (arg_bool a.(1)) (arg_str a.(2)) (nat_of_int (arg_int a.(0))))
+  | "ucscan" -> (* nword w.. str *)
+    let nw = arg_int a.(0) in
+    let words = List.init nw (fun i -> arg_n a.(1 + i)) in
+    out_str (find_unusual (fun c -> List.mem c words) (arg_str a.(1 + nw)))
+  | "cmarker" -> (match search_marker (arg_str a.(0)) with None -> "none" | Some m -> out_str m)
+  | "xmltrig" -> if xml_trigger (arg_str a.(0)) then "1" else "0"
+  | "msgflags" -> (* maxd has_plural nflags flag.. *)
+    let cfg = msg_config ~template:false ~binary:false ~hidden:false ~enc:true ~maxd:(arg_n a.(0)) ~words:[] ~xml:[] in
+    let nf = arg_int a.(2) in
+    let fl = List.init nf (fun i -> arg_str a.(3 + i)) in
+    (match check_flags cfg (arg_bool a.(1)) fl with
+     | Ok (ds, info) ->
+       String.concat " | " (List.map mdiag_s ds @
+         ["info " ^ (if info.fi_fuzzy then "1" else "0") ^ " " ^
+          (match info.fi_range with None -> "none" | Some (i, j) -> zs i ^ ".." ^ zs j) ^ " " ^
+          String.concat ";" (List.map out_str info.fi_formats)])
+     | Err _ -> "err"
+     | Crash c -> "crash " ^ crash_name c)
+  | "messages" -> (* config nentries entry.. *)
+    let pos = ref 0 in
+    let cfg = read_config a pos in
+    let ne = arg_int a.(!pos) in incr pos;
+    let rec rd k acc = if k = 0 then List.rev acc else let e = read_entry a pos in rd (k - 1) (e :: acc) in
+    let cat = rd ne [] in
+    (match check_messages cfg cat with
+     | Ok ds -> String.concat " | " ("ok" :: List.map cdiag_s ds)
+     | Err _ -> "err"
+     | Crash c -> "crash " ^ crash_name c)
   | _ -> "unknown-op " ^ op
 
 let () =
